@@ -557,4 +557,38 @@ theorem coordinate_source_dispatch (rhoNone thetaNone : Bool) :
       if rhoNone = true then Gen.CoordSrc.default else if thetaNone = true then Gen.CoordSrc.refuse else Gen.CoordSrc.caller := by
   cases rhoNone <;> cases thetaNone <;> rfl
 
+/-- **the centroid the default origin uses is the regenerated `util.centroid`**: `zernike_coordinates` calls `lentil.centroid(mask)` on the
+boolean mask; the REGENERATED `Gen.centroid` (through `centroidRC`: normalisation by the total, `np.mgrid` grids, the two dot products, order of the
+returned pair) applied to the mask as 0/1 samples returns exactly (Σ row indices / count, Σ column indices / count) of `maskMoments` — the pair the
+model's default shift `zShift` (and with it `coords_origin_is_centroid`) is built from. Over any field. -/
+theorem default_centroid_is_regenerated {K : Type} [Field K] (mask : Arr Bool) :
+    let c := centroidRC (⟨mask.s0, mask.s1, fun i j => if mask.get i j then (1 : K) else 0⟩ : Arr K)
+    c = (((maskMoments mask).2.1 : K) / ((maskMoments mask).1 : K), ((maskMoments mask).2.2 : K) / ((maskMoments mask).1 : K)) ∧
+    zShift (K := K) mask = (Gen.zShiftAxis c.1 mask.s0, Gen.zShiftAxis c.2 mask.s1) := by
+  have h : centroidRC (⟨mask.s0, mask.s1, fun i j => if mask.get i j then (1 : K) else 0⟩ : Arr K) =
+      (((maskMoments mask).2.1 : K) / ((maskMoments mask).1 : K), ((maskMoments mask).2.2 : K) / ((maskMoments mask).1 : K)) := by
+    unfold centroidRC Gen.centroid Gen.centroidWeight maskMoments
+    simp only [sumRange_eq_sum, Gen.centroidGrid, zero_add, Int.cast_natCast, div_eq_mul_inv, ← mul_assoc, ← Finset.sum_mul,
+      mul_ite, mul_one, mul_zero, Nat.cast_sum, Nat.cast_ite, Nat.cast_one, Nat.cast_zero]
+  refine ⟨h, ?_⟩
+  simp only [h]
+  rfl
+
+/-- **`theta` and `angle` of `zernike_coordinates`, regenerated** (`Gen.zThetaArg`: the complex argument of `np.angle(-rr·e^{iα} + i·cc·e^{iα})`
+split symbolically into real and imaginary part; `Gen.zAngle`: `α = (90 - rotate)·π/180`): the argument is `(-rr + i·cc)·(cos α + i·sin α)`, i.e.
+real part `-(rr·cos α) - cc·sin α` and imaginary part `-(rr·sin α) + cc·cos α`; the model's `zTheta` (which the driver runs) is `atan2` of exactly
+these; and `rotate = 0` gives `α = π/2` (the "90 degree offset" of the source comment), where the argument is `(-cc, -rr)` -/
+theorem theta_regenerated {F : Type} [Field F] [LinearOrder F] [CharZero F] (rr cc ca sa rotate pi : F) :
+    Gen.zThetaArg rr cc ca sa = (-(rr * ca) - cc * sa, -(rr * sa) + cc * ca) ∧
+    (∀ (atan2 : F → F → F) (mask : Arr Bool) (s : F × F) (i j : Int),
+      zTheta atan2 ca sa mask s i j =
+        atan2 (Gen.zThetaArg (zRR mask s i) (zCC mask s j) ca sa).2 (Gen.zThetaArg (zRR mask s i) (zCC mask s j) ca sa).1) ∧
+    Gen.zAngle rotate pi = (90 - rotate) * pi / 180 ∧ Gen.zAngle 0 pi = pi / 2 ∧
+    Gen.zThetaArg rr cc 0 1 = (-cc, -rr) := by
+  refine ⟨?_, fun _ _ _ _ _ => rfl, ?_, ?_, ?_⟩
+  · unfold Gen.zThetaArg; ext <;> simp only <;> ring
+  · unfold Gen.zAngle; push_cast; ring
+  · unfold Gen.zAngle; push_cast; ring
+  · unfold Gen.zThetaArg; ext <;> simp
+
 end Lentil.C11
